@@ -95,8 +95,10 @@ void vec_alias()
   arr<N> A{fresh<N>("a")};
   arr<N> const A0{A};
   unsigned const op{verif_u8("op")};
-  verif_assume(op < 9);
+  verif_assume(op < 14);
   auto a{[&] { if constexpr (std::is_same_v<S, st_tag>) return Kind::template mk<N>(A); else return typename Kind::template view<N>{view_storage<int, N>{A.c}}; }()};
+  arr<N> const B{fresh<N>("b")};
+  auto const b{Kind::template mk<N>(B)};
   constexpr sz mid{N >= 3 ? 1 : 0};
   arr<N> e;
   switch (op)
@@ -109,10 +111,16 @@ void vec_alias()
   case 5: a = a * Kind::first(a); for (sz i = 0; i < N; ++i) e.c[i] = A0.c[i] * A0.c[0]; break;
   case 6: a = a.get_unsafe(mid) * a; for (sz i = 0; i < N; ++i) e.c[i] = A0.c[mid] * A0.c[i]; break;
   case 7: a = a + a * a; for (sz i = 0; i < N; ++i) e.c[i] = A0.c[i] + A0.c[i] * A0.c[i]; break;
-  default: (a *= Kind::first(a)) *= Kind::first(a); for (sz i = 0; i < N; ++i) e.c[i] = A0.c[i] * A0.c[0] * (A0.c[0] * A0.c[0]); break;
+  case 8: (a *= Kind::first(a)) *= Kind::first(a); for (sz i = 0; i < N; ++i) e.c[i] = A0.c[i] * A0.c[0] * (A0.c[0] * A0.c[0]); break;
+  // the assigning operators return a reference to the object itself: a chained second operation lands on `a`, as for int
+  case 9: (a += b) += b; for (sz i = 0; i < N; ++i) e.c[i] = A0.c[i] + B.c[i] + B.c[i]; break;
+  case 10: (a -= b) -= b; for (sz i = 0; i < N; ++i) e.c[i] = A0.c[i] - B.c[i] - B.c[i]; break;
+  case 11: (a *= b) *= b; for (sz i = 0; i < N; ++i) e.c[i] = A0.c[i] * B.c[i] * B.c[i]; break;
+  case 12: (a += b) *= B.c[0]; for (sz i = 0; i < N; ++i) e.c[i] = (A0.c[i] + B.c[i]) * B.c[0]; break;
+  default: (a -= b) += a; for (sz i = 0; i < N; ++i) e.c[i] = (A0.c[i] - B.c[i]) + (A0.c[i] - B.c[i]); break;
   }
   verif_out("r0", static_cast<std::uint32_t>(a.get_unsafe(0)));
-  expect<N>(a, e, "aliasing argument: result equals the operation applied with a copy of the original value");
+  expect<N>(a, e, "aliasing argument / chained assigning operators: result equals the operation applied with a copy of the original value, on the object itself");
   if constexpr (std::is_same_v<S, vw_tag>) for (sz i = 0; i < N; ++i) verif_assert(A.c[i] == e.c[i], "aliasing argument through a view: the viewed array holds the copy-semantics result");
   verif_reach("vec_alias-end");
 }
